@@ -218,6 +218,9 @@ pub enum Step {
     },
     /// `log`
     Log,
+    /// a countdown loop of `iters` iterations that really burns gas
+    /// (runs out of gas if the script gas limit is smaller than its cost)
+    Burn { iters: u32 },
 }
 
 /// What the word `b` of a call carries.
@@ -272,6 +275,7 @@ impl Step {
             Step::Tro { .. } => "tro",
             Step::Smo { .. } => "smo",
             Step::Log => "log",
+            Step::Burn { .. } => "burn_loop",
         }
     }
 
@@ -452,6 +456,11 @@ fn assemble_inner(steps: &[Step], terminal: Terminal, base: usize) -> (Vec<Instr
             }
             Step::Log => {
                 ins.push(op::log(RegId::ONE, RegId::ZERO, RegId::ONE, RegId::ZERO));
+            }
+            Step::Burn { iters } => {
+                ins.push(op::movi(R0, (*iters).min(262_143)));
+                ins.push(op::subi(R0, R0, 1));
+                ins.push(op::jnzb(R0, RegId::ZERO, 0));
             }
         }
     }
